@@ -81,8 +81,9 @@ def write_evidence(ctx, module, wall, n_violations, known_lines):
         'wall_s': round(wall, 3),
         'violations': n_violations,
     }
-    os.makedirs(os.path.join(VERIF, 'evidence'), exist_ok=True)
-    path = os.path.join(VERIF, 'evidence', '%s.json' % ctx.pid)
+    evdir = os.environ.get('VERIF_EVIDENCE_DIR') or os.path.join(VERIF, 'evidence')
+    os.makedirs(evdir, exist_ok=True)
+    path = os.path.join(evdir, '%s.json' % ctx.pid)
     tmp = path + '.tmp'
     with open(tmp, 'w') as handle:
         json.dump(evidence, handle, indent=1, sort_keys=True)
@@ -163,7 +164,7 @@ def finish(ctx, module, started):
             if sigs[0] != sigs[1] or sig not in sigs[0]:
                 raise HarnessError('violation %s did not reproduce identically on replay: %r' % (sig, sigs))
         real.append((sig, items))
-    replay_dir = os.path.join(VERIF, 'replays', pid)
+    replay_dir = os.path.join(os.environ.get('VERIF_REPLAY_DIR') or os.path.join(VERIF, 'replays'), pid)
     for sig, items in real:
         os.makedirs(replay_dir, exist_ok=True)
         for idx, (desc, case) in enumerate(items):
